@@ -931,7 +931,7 @@ class Mesh:
             Scale each dimension by a factor.
 
         """
-        if isinstance(factors, float):
+        if np.isscalar(factors):
             # for backwards compatibility
             factors = self.doflocs.shape[0] * [factors]
         return replace(
